@@ -70,7 +70,21 @@ func (s *robustSnapshot) persistJSON(sink raft.SnapshotSink) error {
 		if err := iterator.Error(); err != nil {
 			return err
 		}
-		n, err := sink.Write(iterator.Value())
+		value := iterator.Value()
+		if len(value) > 0 && value[0] == 'p' {
+			// The store can contain protobuf-encoded entries even when this
+			// node runs with JSON encoding (e.g. after restoring a snapshot
+			// which another node wrote protobuf-encoded). A JSON snapshot
+			// must not contain them verbatim: it could not be restored.
+			var entry raft.Log
+			if err := s.store.GetLog(binary.BigEndian.Uint64(iterator.Key()), &entry); err != nil {
+				return err
+			}
+			if value, err = json.Marshal(&entry); err != nil {
+				return err
+			}
+		}
+		n, err := sink.Write(value)
 		if err != nil {
 			return err
 		}
